@@ -4,8 +4,6 @@
  * seq_cst stores and fences; buffers are flushed nondeterministically at slice starts and completely before the forced rounds. */
 #include "w.h"
 #include "vp.h"
-#define FX_NT 2
-#include "futex_stub.h"   /* only the slot mutex (concurrent_monitor_mutex) can reach the futex here */
 struct S_class_tbb__detail__d1__mutex MTX;
 struct S_class_tbb__detail__r1__address_waiter SLOT;
 int done[2], sem_token, sem_sleeping, n_P, n_V;
@@ -14,7 +12,19 @@ void vp_done(u32 tid) { done[tid] = 1; }
  * was true when it last polled, which holds in the pre-state); of concurrent_monitor_mutex::lock -> one poll */
 struct S_class_tbb__detail__r1__address_waiter* _ZN3tbb6detail2r1L18get_address_waiterEPv(u8* addr) { return &SLOT; }
 u8 _ZN3tbb6detail2d021timed_spin_wait_untilIZNS0_2d115waitable_atomicIbE4waitEbmSt12memory_orderEUlvE_EEbT_(struct HS_WAIT_CLOSURE* closure) { return 0; }
-u8 _ZN3tbb6detail2d021timed_spin_wait_untilIZNS0_2r124concurrent_monitor_mutex4lockEvEUlvE_EEbT_(struct S_class_tbb__detail__r1__concurrent_monitor_mutex* mx) { return (u8)vp_cmm_is_free(mx); }
+/* cut: concurrent_monitor_mutex::lock / unlock (the wait-set lock; its own sleeping protocol is monitor_*'s subject) = a plain lock whose acquire and
+ * release are what they are on x86: locked exchanges, i.e. FULL FENCES that drain the caller's store buffer (modelled by the explicit flush). */
+int slot_locked;
+static void full_fence(void) {
+#ifdef VP_TSO
+  if (vp_cur == 0) vp_thr_unlocker_a_flush(SBD); else vp_thr_sleeper_b_flush(SBD);
+#endif
+}
+void _ZN3tbb6detail2r124concurrent_monitor_mutex4lockEv(struct S_class_tbb__detail__r1__concurrent_monitor_mutex* mx) {
+  if (slot_locked) { VP_BLOCK(); return; }
+  full_fence(); slot_locked = 1; vp_changed = 1;
+}
+void _ZN3tbb6detail2r124concurrent_monitor_mutex6unlockEv(struct S_class_tbb__detail__r1__concurrent_monitor_mutex* mx) { VP_ASSERT(slot_locked, "unlock of a free wait-set lock"); full_fence(); slot_locked = 0; vp_changed = 1; }
 /* cut: binary_semaphore::P / V = one-flag semaphore (the futex protocol below it is monitor_*'s subject). Both are locked RMWs / system calls in
  * reality, i.e. they drain the caller's store buffer; the model does not need that for this hand-shake (no store of W matters after it sleeps). */
 void _ZN3tbb6detail2r116binary_semaphore1PEv(struct S_class_tbb__detail__r1__binary_semaphore* s) {
@@ -37,8 +47,7 @@ int main(void) {
   VP_ASSERT(!vp_deadlock, "lost wake-up: the sleeper committed to sleep on a free mutex and the unlocking thread finished without waking it");
   __CPROVER_assume(!vp_unfinished);
   VP_ASSERT(vp_mutex_flag(&MTX) == 0, "mutex word not false after unlock");
-  VP_ASSERT(vp_aw_waitset_size(&SLOT) == 0 && vp_aw_mutex_flag(&SLOT) == 0, "wait set not empty / slot mutex held at the end");
-  VP_ASSERT(!fx_anyone_sleeping(), "a thread finished while the kernel still has it queued on a futex");
+  VP_ASSERT(vp_aw_waitset_size(&SLOT) == 0 && !slot_locked, "wait set not empty / wait-set lock held at the end");
   VP_REACHED();
   return 0;
 }
